@@ -5,6 +5,7 @@
 use std::collections::{BTreeMap, BTreeSet};
 
 use ethnum::U256;
+use sha3::Digest;
 use rand::{rngs::StdRng, seq::SliceRandom, Rng, SeedableRng};
 use serde_json::{json, Value as J};
 use storage_layout_extractor::{
@@ -604,7 +605,21 @@ fn dataflow_program(rng: &mut StdRng) -> Vec<u8> {
                     c.extend([0x60, rng.gen_range(1..3), 0x01]);
                 }
             }
-            _ => c.extend([0x60, 0x04, 0x60, 0x00, 0x52, 0x60, 0x20, 0x60, 0x00, 0x20, 0x60, 0x04, 0x35, 0x01]),
+            8 => c.extend([0x60, 0x04, 0x60, 0x00, 0x52, 0x60, 0x20, 0x60, 0x00, 0x20, 0x60, 0x04, 0x35, 0x01]),
+            _ => {
+                // a dynamic array whose data base is sometimes computed at run time and sometimes the pushed
+                // literal keccak(slot) - for slot 4 (a hash the tool knows) and slot 20000 (one it does not)
+                let slot: u64 = if rng.gen_bool(0.5) { 4 } else { 20000 };
+                if rng.gen_bool(0.5) {
+                    let mut w = [0u8; 32];
+                    w[24..].copy_from_slice(&slot.to_be_bytes());
+                    c.push(0x7f);
+                    c.extend(sha3::Keccak256::digest(w));
+                } else {
+                    c.extend([0x61, (slot >> 8) as u8, slot as u8, 0x60, 0x00, 0x52, 0x60, 0x20, 0x60, 0x00, 0x20]);
+                }
+                c.extend([0x60, 0x04, 0x35, 0x01]);
+            }
         }
     }
     let mut c: Vec<u8> = Vec::new();
@@ -634,6 +649,14 @@ fn dataflow_program(rng: &mut StdRng) -> Vec<u8> {
             }
             key(rng, &mut c);
             c.push(0x55);
+            // now and then the running value itself becomes a condition of it: t = iszero(v), lt(v, 5), eq(v, 0) ...
+            if rng.gen_bool(0.3) {
+                match rng.gen_range(0..4) {
+                    0 | 1 => c.push(0x15),
+                    2 => c.extend([0x60, 0x05, 0x10]),
+                    _ => c.extend([0x60, 0x00, 0x14]),
+                }
+            }
         }
         c.push(0x50);
     }
